@@ -13,6 +13,20 @@ ASSUME = [
 ]
 
 
+U5 = ['u1', 'u2', 'u3', 'u4', 'u5']
+U4 = U5[:4]
+DIRECTED = {
+    # overlapping recycle loops with a feed of their own (the recorded finding: half of the unit orders raise)
+    'overlapping_loops_own_feed': (U5, [('u1', 'u2'), ('u1', 'u3'), ('u2', 'u4'), ('u3', 'u5'), ('u4', 'u5'), ('u4', 'u2'), ('u5', 'u4')], {'u1': 1, 'u5': 1}, {'u5': 1}),
+    # a recycle loop entered only through its own external feed, next to an ordinary feed unit
+    'loop_behind_own_feed': (U4, [('u1', 'u4'), ('u2', 'u3'), ('u3', 'u4'), ('u3', 'u2')], {'u1': 1, 'u2': 1}, {'u4': 1}),
+    # the whole flowsheet is one loop of two units
+    'two_unit_loop': (U4[:2], [('u1', 'u2'), ('u2', 'u1')], {'u1': 1}, {'u2': 1}),
+    # three outlets whose second and third branches re-join
+    'three_outlets_rejoin': (U5, [('u1', 'u2'), ('u1', 'u3'), ('u1', 'u4'), ('u3', 'u5'), ('u4', 'u5'), ('u5', 'u2')], {'u1': 1}, {'u2': 1}),
+}
+
+
 def key_of(trace, step, clause):
     cyc = 'cyclic' if trace['cyclic'] else 'acyclic'
     return 'NetworkOrder:%s:n=%d:%s:%s' % (cyc, len(trace['units']), step['op'], clause)
@@ -69,8 +83,15 @@ def run(ctx):
         for _ in range(4 if quick else 8):
             order = list(us)
             rng.shuffle(order)
-            rec = dn.record(us, edges, feeds, products, order)
-            traces.append(dict(id='R%d' % len(traces), units=us, edges=edges, order=order, cyclic=is_cyclic(us, edges), feeds=feeds, products=products, **rec))
+            ports = rng.choice([None, rng.randrange(10 ** 6)])
+            rec = dn.record(us, edges, feeds, products, order, ports)
+            traces.append(dict(id='R%d' % len(traces), units=us, edges=edges, order=order, cyclic=is_cyclic(us, edges), feeds=feeds, products=products, ports=ports, **rec))
+    # directed flowsheets, every permutation of the unit list
+    for name, (us, edges, feeds, products) in sorted(DIRECTED.items()):
+        full = lambda d: {u: d.get(u, 0) for u in us}
+        for order in itertools.permutations(us):
+            rec = dn.record(us, edges, full(feeds), full(products), list(order))
+            traces.append(dict(id='D%d' % len(traces), units=us, edges=edges, order=list(order), cyclic=is_cyclic(us, edges), feeds=full(feeds), products=full(products), **rec))
     stats = dict(steps=0, acyclic=0, cyclic=0, errors=0)
     by_units = {}
     for t in traces:
@@ -80,7 +101,7 @@ def run(ctx):
             back = sum(1 for u, v in t['edges'] if t['units'].index(u) >= t['units'].index(v))
             ctx.violation('NetworkOrder:%s,back=%d:from_units:exception:%s' % ('cyclic' if t['cyclic'] else 'acyclic', back, slug),
                           'Network.from_units raised %s' % t['error'],
-                          dict(kind='trace', units=t['units'], edges=t['edges'], order=t['order'], feeds=t.get('feeds'), products=t.get('products')))
+                          dict(kind='trace', units=t['units'], edges=t['edges'], order=t['order'], feeds=t.get('feeds'), products=t.get('products'), ports=t.get('ports')))
             continue
         by_units.setdefault(tuple(t['units']), []).append(t)
     n_tr = 0
@@ -95,7 +116,7 @@ def run(ctx):
             if x['code'] == 'rejected':
                 s = t['steps'][x['l'] - 1]
                 ctx.violation(key_of(t, s, x['clause']), 'units %r edges %r order %r: step %d %s %r: %s' % (t['units'], t['edges'], t['order'], x['l'], s['op'], s['a'], x['clause']),
-                              dict(kind='trace', units=t['units'], edges=t['edges'], order=t['order'], clause=x['clause']))
+                              dict(kind='trace', units=t['units'], edges=t['edges'], order=t['order'], feeds=t.get('feeds'), products=t.get('products'), ports=t.get('ports'), clause=x['clause']))
     cov = dict(states=r.distinct, transitions=r.generated, depth=r.depth, traces_validated_against_impl=n_tr,
                flowsheets_enumerated_by_tlc=len(graphs), flowsheets_skipped_unit_cannot_reach_product=skipped,
                acyclic_traces=stats['acyclic'], cyclic_traces=stats['cyclic'], steps_validated=stats['steps'],
@@ -117,7 +138,7 @@ def replay(ctx, data):
     feeds, products = dn.complete(units, edges)
     if rp.get('feeds'):
         feeds, products = rp['feeds'], rp['products']
-    rec = dn.record(units, edges, feeds, products, rp['order'])
+    rec = dn.record(units, edges, feeds, products, rp['order'], rp.get('ports'))
     print('# path: %r' % [s['a'] for s in rec['steps']], rec['error'])
     if rec['error']:
         print('VIOLATION property=C19 replay=')
